@@ -217,6 +217,8 @@ def h_read(mods, kind, bad):
             raised = e
         except ECMASyntaxError as e:
             raised = e
+        except Exception as e:
+            raised = e              # any other failure of the parser: still a failure the helper must pass on with its streams closed
         made = s.made if kind == 'factory' else []
         for st in made:
             E.check(st.closed == 1, 'stream obtained from a factory closed %d times (fault: %r)' % (st.closed, ctl.fired))
